@@ -201,6 +201,7 @@ def rejects (lt : Ty) (op : Op) (rt : Ty) : Bool :=
   match opEntry lt op with
   | none => true
   | some (.ty t) => !instTy rt t
+  | some (.tys l) => !(l.any (instTy rt))
   | some .unary => false
   | some .untyped => lt == .range && (op == .equals || op == .notEquals) && rt != .range
 
@@ -213,6 +214,14 @@ theorem rejects_sound (l r : Val) (op : Op) (h : rejects l.ty op r.ty = true) :
   · rename_i t he
     rw [he]
     have : isInstance r t = false := by rw [isInstance_eq]; simpa using h
+    simp only [this]
+    exact ⟨.invalidArguments, rfl, by decide⟩
+  · rename_i l he
+    rw [he]
+    have : (l.any (isInstance r)) = false := by
+      have e : (fun t => isInstance r t) = (fun t => instTy r.ty t) := by funext t; exact isInstance_eq r t
+      show (l.any (fun t => isInstance r t)) = false
+      rw [e]; simpa using h
     simp only [this]
     exact ⟨.invalidArguments, rfl, by decide⟩
   · cases h
